@@ -207,6 +207,24 @@ func genFuncR(p *Program, w *World, fn *ssa.Function, con *Contract, excepts map
 			e.Assumptions["package-invariant:"+shortPkg(iv.Pkg)+"."+iv.Clause.ID+" (proved for the package initialiser and for functions under contract; assumed preserved by all other code)"] = true
 		}
 	}
+	// lemmas the contract says it uses: assumed here, proved as obligations of their own
+	if con != nil {
+		for _, ln := range con.Uses {
+			found := false
+			for _, ax := range w.Axioms {
+				if ax.Lemma && ax.Name == ln {
+					found = true
+					lenv := &Env{E: e, Vars: map[string]Val{}, Imports: ax.Imports, Where: "lemma " + ax.Name,
+						St: &State{Reach: "true", Vars: map[string]string{}}}
+					e.S.assume(lenv.elabBool(ax.E))
+					e.Assumptions["lemma:"+ln+" (used here; proved as obligation lemma."+ln+")"] = true
+				}
+			}
+			if !found {
+				panic(elabError{"uses: unknown lemma " + ln})
+			}
+		}
+	}
 	// discriminators of known findings, elaborated in the entry environment
 	for _, id := range sortedKeys(excepts) {
 		toks, lerr := lexSpec("known_findings.json:"+id, 1, excepts[id])
